@@ -100,4 +100,8 @@ theorem text_SessionData_deleteStaleChunkCookies_ok : Oidc.Shapes.Text_SessionDa
 /-! further obligations against the regenerated program text (`Oidc/Shapes.lean`): constructor wiring and URL builders -/
 theorem text_BuildLogoutURL_ok : Oidc.Shapes.Text_BuildLogoutURL := by unfold Oidc.Shapes.Text_BuildLogoutURL; rfl
 
+
+/-! ## Program text of the helpers these theorems also rest on (constructors, accessors, token endpoint, configuration) -/
+theorem text_TraefikOidc_RevokeTokenWithProvider_ok : Oidc.Shapes.Text_TraefikOidc_RevokeTokenWithProvider := by unfold Oidc.Shapes.Text_TraefikOidc_RevokeTokenWithProvider; rfl
+
 end Oidc.Props.C11
